@@ -46,13 +46,13 @@ PROPS = {
     "C03": dict(gens=["C03"], quick=11000, thorough=200000),
     "C04": dict(gens=["C04"], quick=19000, thorough=250000, known=["K1"]),
     "C05": dict(gens=["C05"], quick=31000, thorough=300000),
-    "C08": dict(gens=["C08"], quick=16000, thorough=300000),
+    "C08": dict(gens=["C08", "F08"], quick=22400, thorough=390000),
     "C10": dict(gens=["C10"], quick=5000, thorough=300000),
     "C14": dict(gens=["C14"], quick=3000, thorough=100000),
-    "C15": dict(gens=["C15"], quick=8000, thorough=200000),
+    "C15": dict(gens=["C15", "F15"], quick=11200, thorough=260000),
     "C16": dict(gens=["C16"], quick=8000, thorough=200000),
     "C06": dict(gens=["C06"], quick=15000, thorough=300000, known=["K2", "K4"]),
-    "C07": dict(gens=["C07"], quick=4000, thorough=200000),
+    "C07": dict(gens=["C07", "F07"], quick=6000, thorough=250000),
     "C09": dict(gens=["C09"], quick=4000, thorough=150000),
     "C11": dict(gens=["C11"], quick=7000, thorough=250000),
     "C12": dict(gens=["C12"], quick=4000, thorough=150000),
@@ -220,11 +220,13 @@ def build_driver():
 
 def build_harness(profile="dev", features=""):
     flag = "" if profile == "dev" else ("--release" if profile == "release" else "--profile " + profile)
-    feat = ("--features " + features) if features else ""
+    # one target directory per feature set, so that switching features never rebuilds the other one
+    tdir = "target" if not features else "target-" + features.replace(",", "-")
+    feat = ("--features %s --target-dir %s" % (features, os.path.join(ROOT, "harness", tdir))) if features else ""
     rc, out = sh("cargo build --offline %s %s 2>&1" % (flag, feat), cwd=os.path.join(ROOT, "harness"), timeout=1500,
                  env={"RUSTFLAGS": HOOK_CFG})
     d = "debug" if profile == "dev" else profile
-    return rc == 0, out[-3000:], os.path.join(ROOT, "harness", "target", d, "fpdec-verif-harness")
+    return rc == 0, out[-3000:], os.path.join(ROOT, "harness", tdir, d, "fpdec-verif-harness")
 
 
 # ---------------------------------------------------------------------------------
@@ -241,7 +243,39 @@ def run_impl(binary, lines, tag):
     return res
 
 
-HARNESS_ONLY = ("frm.", "fl.hasheq")
+HARNESS_ONLY = ("frm.", "fl.hasheq", "ft.")
+
+# harness builds with the crate's optional features (own target directories, so the
+# default build is never disturbed): name -> (cargo features, target dir)
+FEATURE_BUILDS = {
+    "feat": ("serde-as-str,num-traits,rkyv", "target-feat"),
+    "featp": ("rkyv,packed", "target-featp"),      # the hand-written Archive impl for the packed layout
+}
+
+
+def build_harness_feat(name):
+    feats, tdir = FEATURE_BUILDS[name]
+    rc, out = sh("cargo build --offline --features %s --target-dir %s 2>&1" % (feats, os.path.join(ROOT, "harness", tdir)),
+                 cwd=os.path.join(ROOT, "harness"), timeout=1500, env={"RUSTFLAGS": HOOK_CFG})
+    return rc == 0, out[-3000:], os.path.join(ROOT, "harness", tdir, "debug", "fpdec-verif-harness")
+
+
+def run_feature_lines(lines, tag):
+    """ft.* lines: run on the feature builds; ft.rkyv on both layouts (first failure wins)"""
+    res = ["B 1"] * len(lines)
+    for name in ("feat", "featp"):
+        idx = [i for i, l in enumerate(lines) if name == "feat" or l.startswith("ft.rkyv")]
+        if not idx:
+            continue
+        with Lock():
+            ok, out, fbin = build_harness_feat(name)
+        if not ok:
+            raise RuntimeError("feature harness %s does not build: %s" % (name, out[-800:]))
+        got = run_impl(fbin, [lines[i] for i in idx], "%s_%s" % (tag, name))
+        for i, g in zip(idx, got):
+            if res[i] == "B 1" and g != "B 1":
+                res[i] = g + " [" + name + "]"
+    return res
 
 
 def harness_only_verdict(line, im):
@@ -304,7 +338,15 @@ def canon_err(o):
 
 
 def eval_generic(pid, lines, hbin, pf="dev", tag=None):
-    impl = run_impl(hbin, lines, tag or pid)
+    fidx = [i for i, l in enumerate(lines) if l.startswith("ft.")]
+    oidx = [i for i, l in enumerate(lines) if not l.startswith("ft.")]
+    impl = [None] * len(lines)
+    if oidx:
+        for i, r in zip(oidx, run_impl(hbin, [lines[i] for i in oidx], tag or pid)):
+            impl[i] = r
+    if fidx:
+        for i, r in zip(fidx, run_feature_lines([lines[i] for i in fidx], tag or pid)):
+            impl[i] = r
     rows = run_driver(lines, impl, pf, tag or pid)
     return impl, rows
 
@@ -330,7 +372,7 @@ def eval_C18(pid, lines, hbin):
     return lines, impl, out_rows
 
 
-C20_PROFILES_QUICK = [("dev", "dev", ""), ("release", "release", "")]
+C20_PROFILES_QUICK = [("dev", "dev", ""), ("release", "release", ""), ("dev", "dev", "packed"), ("release", "release", "packed")]
 C20_PROFILES_THOROUGH = [
     ("dev", "dev", ""), ("release", "release", ""),
     ("o0-ovf-nodbg", "ovf-nodbg", ""), ("o0-noovf-dbg", "noovf-dbg", ""), ("o0-noovf-nodbg", "release", ""),
